@@ -81,10 +81,10 @@ P("C04", "proof", "Lean 4 theorems (acceptance rule, first-offender error, appen
   "differential testing; byte/UTF-8/typed forms agree: oracle.",
   theorems=["TP.C04.neverClimbs_iff_counts", "TP.C04.scan_none_iff", "TP.C04.checked_accepts_iff", "TP.C04.checked_ok_eq_push",
             "TP.C04.checked_error_first", "TP.C04.unix_checked_keeps_base", "TP.C04.unix_checked_empty_base", "TP.C04.windows_K3_witness",
-            "TP.unix_push_comps", "TP.C16b.win_checked_keeps_base_pf",
+            "TP.unix_push_comps", "TP.C04c.win_checked_keeps_base_pf",
             "TP.C04b.accepted_prefix_free", "TP.C04b.win_checked_keeps_base_prefixed", "TP.Win.win_push_comps_prefixed",
-            "TP.C08c.win_checked_keeps_base_verbatim", "TP.C08c.fold_neverClimbs"],
-  modules=["TypedPathVerif.Lemmas.Append", "TypedPathVerif.Props.C16b", "TypedPathVerif.Props.C04b", "TypedPathVerif.Props.C08c"],
+            "TP.C04c.win_checked_keeps_base_verbatim", "TP.C04c.fold_neverClimbs"],
+  modules=["TypedPathVerif.Lemmas.Append", "TypedPathVerif.Props.C16b", "TypedPathVerif.Props.C04b", "TypedPathVerif.Props.C08c", "TypedPathVerif.Props.C04c"],
   rule=NONTRIV + "non-trivial = argument has >= 2 components or is rejected", design_ref="§5 C04")
 
 P("C05", "proof", "Lean 4 theorems (lexicographic total-order laws, eq iff components, the hash index loop = its component-level description) + model/code correspondence incl. exact hasher input",
